@@ -613,6 +613,22 @@ func (m *Machine) mapFind(mp *Map, k Value) int {
 	if mp == nil {
 		return -1
 	}
+	if hk, ok := hashKey(k); ok {
+		if i, found := mp.idx[hk]; found && !mp.Entries[i].Dead {
+			return i
+		}
+		// not among the concrete keys: only symbolic keys can still match
+		for _, i := range mp.symKeys {
+			e := &mp.Entries[i]
+			if e.Dead {
+				continue
+			}
+			if m.branch(m.equalVals(e.K, k)) {
+				return i
+			}
+		}
+		return -1
+	}
 	for i := range mp.Entries {
 		e := &mp.Entries[i]
 		if e.Dead {
@@ -665,6 +681,14 @@ func (m *Machine) mapUpdate(mp *Map, k, v Value) {
 	}
 	mp.Entries = append(mp.Entries, mapEntry{K: k, V: v})
 	mp.N++
+	if hk, ok := hashKey(k); ok {
+		if mp.idx == nil {
+			mp.idx = map[string]int{}
+		}
+		mp.idx[hk] = len(mp.Entries) - 1
+	} else {
+		mp.symKeys = append(mp.symKeys, len(mp.Entries)-1)
+	}
 }
 
 func (m *Machine) mapDelete(mp *Map, k Value) {
@@ -678,6 +702,9 @@ func (m *Machine) mapDelete(mp *Map, k Value) {
 	if i >= 0 {
 		mp.Entries[i].Dead = true
 		mp.N--
+		if hk, ok := hashKey(mp.Entries[i].K); ok {
+			delete(mp.idx, hk)
+		}
 	}
 }
 
